@@ -2702,6 +2702,12 @@ def check_trace(case, want_info=False):
             info["classes"].append("verdict:single-runtime-with-nonfinite-skipped")
             results[tag] = None
             continue
+        if a[0] != "ok" and b[0] != "ok" and "op_kernel_context.h" in str(a[1]):
+            # onnxruntime loaded the model and then tripped an internal assertion (an implicit Loop/Scan input that is the output of
+            # a no-op Cast chain is gone at run time); with no second runtime for this case nothing can be concluded about the builder
+            info["classes"].append("verdict:ort-internal-assertion-skipped")
+            results[tag] = None
+            continue
         v, suffix, detail = judge_outputs(tag, a, b, expected, scale)
         info["classes"].append(f"verdict:{tag}:{v}" + (":ort-only" if b[0] != "ok" and a[0] == "ok" else ""))
         results[tag] = a if a[0] == "ok" else b
@@ -2922,6 +2928,8 @@ REGIONS = {
     "body_dup_return": lambda c: _is_trace(c) and any(len(set(b["ret"])) != len(b["ret"]) for b in _bodies(c["prog"])),
     "kw_input_after_gap": lambda c: _is_trace(c) and any(_kw_gap(s, c["prog"]["opset"]) for s in prog_steps(c["prog"]) if s["k"] == "op" and s.get("kwins")),
     "rehomed_in_unnamed_sequential": lambda c: c.get("part") == "tree" and bool(c.get("rehomed_in_seq")),
+    "scan_body_param_without_shape": lambda c: _is_trace(c) and any(
+        s["k"] == "scan" and any(t != "full" for t in s["body"].get("ptyped", [])) for s in prog_steps(c["prog"], with_funcs=False)),
 }
 
 
